@@ -66,6 +66,13 @@ static void charge(MemSrc *s)
 	}
 }
 
+/* FILE-backed kinds: stdio calls made by library code are charged to the same budget */
+static MemSrc *cur_src;
+static void file_step(void)
+{
+	if (cur_src) { cur_src->reads = allocmon_file_reads; cur_src->skips = allocmon_file_seeks; charge(cur_src); }
+}
+
 static int cb_read(void *h, void *buf, size_t n)
 {
 	MemSrc *s = h; size_t k = s->len - s->pos;
@@ -239,6 +246,9 @@ int main(int argc, char **argv)
 		}
 
 		allocmon_fail_at = fail_at;
+		allocmon_file_reads = allocmon_file_seeks = 0;
+		cur_src = (kind <= 1 || kind == 4) ? &src : NULL;
+		allocmon_step_hook = file_step;
 		budget_armed = 1;
 		if (setjmp(budget_jmp) != 0) {
 			LEAVE();
